@@ -1336,3 +1336,7 @@ mod tests {
         );
     }
 }
+
+#[cfg(kani)]
+#[path = "/verif/kani/arrow-array/array/fixed_size_binary_array.rs"]
+mod verif_kani;
